@@ -89,32 +89,52 @@ def rel_close(a, b, rel):
 # ---------------------------------------------------------------------------------------------
 # (A) structure_factor_mean
 # ---------------------------------------------------------------------------------------------
+def mean_tolerance(c: dict, d64: np.ndarray) -> float:
+    """relative tolerance of the moment-based length scale: 1e-9 in binary64.  The length scale only depends on the
+    non-zero modes, whose power is computed with an absolute error of about eps * |f|^2: the relative error is
+    eps * cond with cond = |f| / |f - mean(f)|.  For float32 data the transform itself runs in single precision
+    (eps = 1.2e-7), e.g. an offset of 100 with fluctuations of 1e-3 leaves two significant digits."""
+    fluct = float(np.sqrt(np.sum((d64 - d64.mean()) ** 2)))
+    cond = float(np.sqrt(np.sum(d64 ** 2))) / fluct if fluct > 0 else math.inf
+    eps = 1.2e-7 if c.get("dtype") == "float32" else 2.3e-16
+    return max(1e-9, (2e-5 if c.get("dtype") == "float32" else 0.0), 50 * eps * cond)
+
+
 def prop_mean(c: dict, rng: random.Random) -> list[dict]:
     fails = []
     data = sc.build(c)
+    d64 = data.astype(float)  # exact for float32 / int64 data: the factors must not be rounded to the data's dtype
+    rel = mean_tolerance(c, d64)
+    del PROBLEMS[:]
     f = sc.make_field(c, data)
     L = gls(f, "structure_factor_mean")
     if not (math.isfinite(L) and L > 0):
         return [{"what": "structure_factor_mean is not a positive finite length", "method": "structure_factor_mean",
-                 "input": sc.canon(c), "got": repr(L)}]
+                 "input": sc.canon(c), "got": repr(L), "problem": last_problem()}]
     for s in STRETCH:
         Ls = gls(sc.make_field(c, data, scale=s), "structure_factor_mean")
-        if not rel_close(Ls, s * L, 1e-9):
+        if not rel_close(Ls, s * L, rel):
             fails.append({"what": "structure_factor_mean does not scale with the grid", "method": "structure_factor_mean",
-                          "input": sc.canon(c), "stretch": s, "got": Ls, "want": s * L})
+                          "input": sc.canon(c), "stretch": s, "got": sc.json_safe(Ls), "want": s * L})
             break
     for cc in sc.SCALE_FACTORS:
-        Lc = gls(sc.make_field(c, cc * data), "structure_factor_mean")
-        if not rel_close(Lc, L, 1e-9):
+        Lc = gls(sc.make_field(c, cc * d64), "structure_factor_mean")
+        if not rel_close(Lc, L, rel):
             fails.append({"what": "structure_factor_mean changes when the field is multiplied by a constant",
                           "method": "structure_factor_mean", "input": sc.canon(c), "factor": cc, "got": sc.json_safe(Lc),
                           "want": L})
             break
     sh = [rng.randrange(0, n) for n in data.shape]
     Lr = gls(sc.make_field(c, np.roll(data, sh, axis=tuple(range(data.ndim)))), "structure_factor_mean")
-    if not rel_close(Lr, L, 1e-9):
+    if not rel_close(Lr, L, rel):
         fails.append({"what": "structure_factor_mean changes under a periodic translation",
-                      "method": "structure_factor_mean", "input": sc.canon(c), "shift": sh, "got": Lr, "want": L})
+                      "method": "structure_factor_mean", "input": sc.canon(c), "shift": sh, "got": sc.json_safe(Lr),
+                      "want": L})
+    if not all(c.get("periodic", [True])):  # the periodicity flags only produce a warning
+        Lp = gls(sc.make_field({**c, "periodic": [True] * len(c["shape"])}, data), "structure_factor_mean")
+        if Lp != L:
+            fails.append({"what": "structure_factor_mean depends on the periodicity flags of the grid",
+                          "method": "structure_factor_mean", "input": sc.canon(c), "got": L, "want": Lp})
     return fails
 
 
@@ -129,7 +149,8 @@ def corr_mean(c: dict, py: dict, consts: dict) -> list[str]:
     on, auto, nowave, az = consts["ls_mean_flags"]
     k, sf = sc.model_tail(mk, msf, on, auto, nowave, az, 0.0, float(f.grid.cuboid.size.max()), [], py, consts)
     Lm = float(py["ls_mean"](sum_sf=np.sum(sf), sum_ksf=np.sum(k * sf)))
-    return [] if rel_close(L, Lm, 1e-9) else [f"structure_factor_mean: implementation {L!r} vs generated model {Lm!r}"]
+    rel = mean_tolerance(c, data.astype(float))
+    return [] if rel_close(L, Lm, rel) else [f"structure_factor_mean: implementation {L!r} vs generated model {Lm!r}"]
 
 
 def model_peak(f, py: dict, consts: dict, smoothing=None) -> float:
@@ -187,17 +208,29 @@ def gen_emulsion_case(rng: random.Random) -> dict:
               "mixed": [rng.choice([0.0, -e / 2, s_, -e - s_, -s_]) for e, s_ in zip(ext, shift)]}[place]
     nd = rng.randrange(1, 4)
     drops = [{"pos": [rng.random() for _ in range(d)], "radius": 0.1 + 0.12 * rng.random()} for _ in range(nd)]
-    return {"shape": shape, "h": h, "origin": origin, "place": place, "kind": "emulsion", "drops": drops,
-            "width": 0.75 * max(h), "lmin": min(ext)}
+    return {"shape": shape, "h": h, "origin": origin, "place": place, "periodic": sc.periodic_mask(rng, d),
+            "kind": "emulsion", "drops": drops, "width": 0.75 * max(h), "lmin": min(ext)}
 
 
 def build_emulsion(c: dict, scale: float = 1.0):
     from droplets import DiffuseDroplet, Emulsion
-    grid = sc.make_grid(c["shape"], c["h"], c["origin"], scale)
+    grid = sc.make_grid(c["shape"], c["h"], c["origin"], scale, c.get("periodic", True))
     ext = [n * hh for n, hh in zip(c["shape"], c["h"])]
     drops = [DiffuseDroplet([scale * (o + p * e) for o, p, e in zip(c["origin"], dr["pos"], ext)],
                             scale * dr["radius"] * c["lmin"], scale * c["width"]) for dr in c["drops"]]
     return Emulsion(drops).get_phasefield(grid)
+
+
+def DETECTION_KWARGS(radii: list[float], dim: int) -> list[dict]:
+    """keyword arguments of locate_droplets reachable through get_length_scale(**kwargs): thresholds (number / rules),
+    minimal_radius at its boundary values and between the droplet radii, refinement and its options"""
+    mid = 0.5 * (radii[0] + radii[-1]) if len(radii) > 1 else 0.5 * radii[0]
+    return [{"threshold": 0.3}, {"threshold": 0.5}, {"threshold": "extrema"}, {"threshold": "mean"}, {"threshold": "otsu"},
+            {"threshold": "auto"}, {"minimal_radius": 0}, {"minimal_radius": 0.0}, {"minimal_radius": -1.0},
+            {"minimal_radius": -math.inf}, {"minimal_radius": mid}, {"minimal_radius": 0.5 * radii[0]},
+            {"refine": True}, {"refine": True, "modes": 0},
+            {"threshold": "extrema", "minimal_radius": mid}] + \
+        ([{"refine": False, "modes": 2}] if dim >= 2 else [])  # perturbed droplets are documented for 2-d and 3-d only
 
 
 def prop_count(c: dict, rng: random.Random) -> list[dict]:
@@ -232,11 +265,38 @@ def prop_count(c: dict, rng: random.Random) -> list[dict]:
             fails.append({"what": "droplet_detection does not scale with the grid", "method": "droplet_detection",
                           "input": sc.canon(c), "stretch": s, "got": Ls, "want": s * L})
             break
-    sh = [rng.randrange(0, m) for m in f.data.shape]
+    # translation: along periodic axes only (on a non-periodic axis a droplet cut by the wrap-around is two clusters)
+    sh = [rng.randrange(0, m) if p else 0 for m, p in zip(f.data.shape, f.grid.periodic)]
     Lr = gls(ScalarField(f.grid, np.roll(f.data, sh, axis=tuple(range(d)))), "droplet_detection")
     if not rel_close(Lr, L, 1e-9):
-        fails.append({"what": "droplet_detection changes under a periodic translation", "method": "droplet_detection",
-                      "input": sc.canon(c), "shift": sh, "got": Lr, "want": L})
+        fails.append({"what": "droplet_detection changes under a translation along the periodic axes",
+                      "method": "droplet_detection", "input": sc.canon(c), "shift": sh, "got": sc.json_safe(Lr), "want": L})
+    # keyword arguments are forwarded to locate_droplets: the count in the formula is the count of the same call
+    radii = sorted(dr["radius"] * c["lmin"] for dr in c["drops"])
+    for kw in rng.sample(DETECTION_KWARGS(radii, d), 3):
+        kw_before = dict(kw)
+        n_kw = len(locate_droplets(f, **kw))
+        L_kw = gls(f, "droplet_detection", **kw)
+        if kw != kw_before:
+            fails.append({"what": "droplet_detection modifies the caller's keyword arguments", "method": "droplet_detection",
+                          "input": sc.canon(c), "kwargs": sc.json_safe({k_: repr(v) for k_, v in kw_before.items()})})
+        if n_kw == 0:
+            continue  # outside the property text
+        want_kw = (V / n_kw) ** (1.0 / d)
+        if not rel_close(L_kw, want_kw, 1e-12):
+            fails.append({"what": "droplet_detection with forwarded keyword arguments is not (V/n)^(1/d) for the droplets "
+                                  "that locate_droplets finds with the same arguments", "method": "droplet_detection",
+                          "input": sc.canon(c), "kwargs": {k_: repr(v) for k_, v in kw.items()}, "droplets": n_kw,
+                          "got": sc.json_safe(L_kw), "want": want_kw, "problem": last_problem()})
+            break
+        if "minimal_radius" in kw and math.isfinite(kw["minimal_radius"]):
+            s = rng.choice(STRETCH)  # a length among the arguments is stretched with the grid
+            Ls = gls(build_emulsion(c, s), "droplet_detection", **{**kw, "minimal_radius": s * kw["minimal_radius"]})
+            if not rel_close(Ls, s * L_kw, 1e-9):
+                fails.append({"what": "droplet_detection (minimal_radius stretched with the grid) does not scale with the grid",
+                              "method": "droplet_detection", "input": sc.canon(c), "stretch": s,
+                              "kwargs": {k_: repr(v) for k_, v in kw.items()}, "got": sc.json_safe(Ls), "want": s * L_kw})
+                break
     # field scaling: exact invariance for positive factors under the relative threshold rules (the absolute default
     # threshold and negative factors are the known finding F18, probed separately)
     for cc, thr in [(rng.choice([0.4, 2.0, 1e3]), t_) for t_ in ("extrema", "mean", "otsu")] + \
@@ -318,6 +378,38 @@ def probe_noncartesian(ctx) -> None:
                                        "method": "droplet_detection", "input": inp, "got": L, "want": want, "found": True})
 
 
+def probe_tracker(ctx, rng: random.Random, failures: list) -> None:
+    """LengthScaleTracker.handle on frames with and without structure: it stores exactly what get_length_scale returns
+    for the frame (nan when that call raises) and never raises itself"""
+    from pde import ScalarField
+    from droplets.trackers import LengthScaleTracker
+    c = gen_emulsion_case(rng)
+    f = build_emulsion(c)
+    frames = [("emulsion", f), ("no droplets (all below the threshold)", ScalarField(f.grid, 0.25 * f.data)),
+              ("zero field", ScalarField(f.grid, 0.0)), ("constant field", ScalarField(f.grid, 0.7))]
+    for method in ("structure_factor_mean", PEAK, "droplet_detection"):
+        tr = LengthScaleTracker(method=method)
+        for j, (name, fr) in enumerate(frames):
+            inp = {**sc.canon(c), "frame": name, "tracker_method": method}
+            ctx.case(["tracker", method, name, sc.canon(c)])
+            ctx.count("tracker_frame", f"{method}: {name}")
+            try:
+                tr.handle(fr, float(j))
+            except Exception as e:  # noqa: BLE001
+                failures.append({"what": "LengthScaleTracker.handle raises", "method": method, "input": inp,
+                                 "error": f"{type(e).__name__}: {e}"[:300]})
+                continue
+            try:
+                want = float(gls_raw(fr, method))
+            except Exception:  # noqa: BLE001  (documented: stored as nan)
+                want = math.nan
+            got = tr.length_scales[-1] if len(tr.length_scales) == j + 1 else None
+            ok_ = isinstance(got, (float, np.floating)) and ((math.isnan(got) and math.isnan(want)) or got == want)
+            if not ok_ or tr.times[-1] != float(j):
+                failures.append({"what": "LengthScaleTracker does not store the length scale of the frame", "method": method,
+                                 "input": inp, "got": repr(got), "want": repr(want)})
+
+
 # ---------------------------------------------------------------------------------------------
 # (C) structure_factor_maximum
 # ---------------------------------------------------------------------------------------------
@@ -330,14 +422,17 @@ def gen_wave_case(rng: random.Random, first: bool = False) -> dict:
     q = [rng.randrange(0 if d > 1 else 1, n // 4 + 1) for n in shape]
     if not any(q):
         q[0] = 1
+    # lower corner of the box in units of the spacing: origin, centred, positive, entirely negative
+    origin_cells = [rng.choice([0.0, -n / 2, 3.0, -n - 3.0]) for n in shape]
     return {"shape": shape, "q": q, "amp": rng.choice([0.2, 1.0, 5.0]), "offset": rng.choice([0.0, 0.2, -1.5]),
-            "phase": rng.randrange(0, 63) / 10.0}
+            "phase": rng.randrange(0, 63) / 10.0, "origin_cells": origin_cells}
 
 
 def wave_field(w: dict, h: float):
     from pde import CartesianGrid, ScalarField
     shape = w["shape"]
-    grid = CartesianGrid([(0, n * h) for n in shape], shape, periodic=True)
+    oc = w.get("origin_cells", [0.0] * len(shape))
+    grid = CartesianGrid([(o * h, (o + n) * h) for n, o in zip(shape, oc)], shape, periodic=True)
     idx = np.meshgrid(*[np.arange(n) for n in shape], indexing="ij")
     ph = sum(sc.TWO_PI * q * (i + 0.5) / n for q, i, n in zip(w["q"], idx, shape))
     return ScalarField(grid, w["offset"] + w["amp"] * np.sin(ph + w["phase"]))
@@ -608,32 +703,44 @@ def check(ctx: vlib.Ctx) -> int:
             failures.extend(confirmed)
     boost = 2 if (ctx.broken or fell_back) else 1
     known_f7: list[str] = []
+    def guarded(method, inp, fn):
+        """an exception of the oracle's own calls into the library on a valid input is a failure with that input"""
+        try:
+            return fn()
+        except Exception as e:  # noqa: BLE001
+            return [{"what": f"{method}: the library raises {type(e).__name__} on a valid input", "method": method,
+                     "input": inp, "error": str(e)[:300]}]
+
     # (A) moment method
     for i in range(boost * ctx.scale(60, 400)):
         c = sc.gen_case(rng, big=(not ctx.quick and i % 4 == 3))
-        if float(np.ptp(sc.build(c))) == 0.0:
+        data = sc.build(c)
+        if float(np.ptp(data)) == 0.0:
+            # zero variance: no length scale exists; nothing is documented (the implementation returns nan)
+            ctx.count("skipped", "constant field (zero variance: no length scale defined)")
             continue
         ctx.case(["structure_factor_mean", sc.canon(c)])
         ctx.count("method", "structure_factor_mean")
-        ctx.count("dim", len(c["shape"]))
-        ctx.count("kind", c["kind"])
+        sc.count_case(ctx, c)
         if i == 0:
             ctx.sample({"method": "structure_factor_mean", **sc.canon(c)})
-        failures.extend(prop_mean(c, rng))
+        failures.extend(guarded("structure_factor_mean", sc.canon(c), lambda: prop_mean(c, rng)))
         if gen_ok:
-            corr_bad.extend((m_, sc.canon(c)) for m_ in corr_mean(c, py, consts))
+            corr_bad.extend((m_, sc.canon(c)) for m_ in
+                            guarded("structure_factor_mean", sc.canon(c), lambda: corr_mean(c, py, consts))
+                            if isinstance(m_, str))
     # (B) droplet counting
     for i in range(boost * ctx.scale(40, 250)):
         c = gen_emulsion_case(rng)
         ctx.case(["droplet_detection", sc.canon(c)])
         ctx.count("method", "droplet_detection")
-        ctx.count("dim", len(c["shape"]))
-        ctx.count("kind", "emulsion")
+        sc.count_case(ctx, c)
         if i == 0:
             ctx.sample({"method": "droplet_detection", **sc.canon(c)})
-        failures.extend(prop_count(c, rng))
+        failures.extend(guarded("droplet_detection", sc.canon(c), lambda: prop_count(c, rng)))
     probe_noncartesian(ctx)
     probe_field_scaling(ctx)
+    probe_tracker(ctx, rng, failures)
     # (C) peak method
     decades = DECADES if ctx.quick else sorted(DECADES + [-2.5, -1.5, -0.5, 0.5, 1.5, 2.5])
     for i in range(boost * ctx.scale(24, 120)):
@@ -642,26 +749,30 @@ def check(ctx: vlib.Ctx) -> int:
         ctx.count("method", PEAK + "/plane wave")
         ctx.count("dim", len(w["shape"]))
         ctx.count("kind", "plane wave")
+        ctx.count("wave_box_placement", "origin" if not any(w.get("origin_cells", [0])) else
+                  "negative" if all(o < -n for o, n in zip(w["origin_cells"], w["shape"])) else "shifted / centred")
         if i == 0:
             ctx.sample({"method": PEAK, **sc.canon(w), "spacings": [10.0 ** e for e in decades]})
-        failures.extend(prop_peak_wave(w, decades, ctx, known_f7, corr_bad))
+        failures.extend(guarded(PEAK, sc.canon(w), lambda: prop_peak_wave(w, decades, ctx, known_f7, corr_bad)))
         if gen_ok:
             h_ = 10.0 ** decades[i % len(decades)]
-            corr_bad.extend(corr_peak(wave_field(w, h_), py, consts, inp0(w, h_)))
             bin_w = wave_truth_bins(w)[1]
-            corr_bad.extend(corr_peak(wave_field(w, h_), py, consts, {**inp0(w, h_), "smoothing": "0.3 bins"},
-                                      smoothing=0.3 * sc.TWO_PI * bin_w / h_))
+            for extra in guarded(PEAK, inp0(w, h_), lambda: corr_peak(wave_field(w, h_), py, consts, inp0(w, h_)) +
+                                 corr_peak(wave_field(w, h_), py, consts, {**inp0(w, h_), "smoothing": "0.3 bins"},
+                                           smoothing=0.3 * sc.TWO_PI * bin_w / h_)):
+                (failures if isinstance(extra, dict) else corr_bad).append(extra)
     for i in range(boost * ctx.scale(20, 120)):
-        c = sc.gen_case(rng, kind=rng.choice(["noise", "waves", "droplets"]), min_n=4)
+        # binary64 data: near-ties of the raw maximum are decided at the 1e-6 level (see prop_peak_field)
+        c = sc.gen_case(rng, kind=rng.choice(["noise", "waves", "droplets"]), min_n=4, dtype="float64")
         if float(np.ptp(sc.build(c))) == 0.0:
             continue
         ctx.case([PEAK, sc.canon(c)])
         ctx.count("method", PEAK + "/field")
-        ctx.count("dim", len(c["shape"]))
-        ctx.count("kind", c["kind"])
+        sc.count_case(ctx, c)
         if gen_ok:
-            corr_bad.extend(corr_peak(sc.make_field(c), py, consts, sc.canon(c)))
-        r = prop_peak_field(c, rng, known_f7)
+            for extra in guarded(PEAK, sc.canon(c), lambda: corr_peak(sc.make_field(c), py, consts, sc.canon(c))):
+                (failures if isinstance(extra, dict) else corr_bad).append(extra)
+        r = guarded(PEAK, sc.canon(c), lambda: prop_peak_field(c, rng, known_f7))
         if r and "skip" in r[0]:
             ctx.count("peak_field_skipped", r[0]["skip"])
             continue
